@@ -232,7 +232,7 @@ def run_case(case, tier):
                 kind = "law-changed" if mode == "plain" else "aux-carries-information"
                 v = {"kind": kind, "stage": st.name, "stage_index": st.index, "mode": mode, "n": n,
                      "detail": f"after pass #{st.index} {st.name} ({mode} run, settings {cfg}): {msg}"}
-                v["key"] = diagnose.classify_stage_violation(case, v, st, stages) if abstracted_vars else None
+                v["key"] = diagnose.classify_stage_violation(case, v, st, stages, abstraction_explains=bool(abstracted_vars))
                 res["violations"].append(v)
                 first_bad = first_bad or st.name
                 break
